@@ -38,6 +38,12 @@ fn budget(fl: &mut Flounder, line: &str) -> Result<Option<u128>, String> {
 }
 
 pub fn check_line(fl: &mut Flounder, white_to_move: bool, line: &str, own_time: u64, own_inc: u64, baseline: &mut HashMap<(bool, u64, u64), u128>, rep: &Report) -> bool {
+    check_line_variant(fl, white_to_move, line, own_time, own_inc, 0, &mut HashMap::new(), baseline, rep)
+}
+
+/// As `check_line`; lines of different `variant` (token layout, stage of the session) are not
+/// required to agree with each other, only with lines of the same variant and own clock.
+pub fn check_line_variant(fl: &mut Flounder, white_to_move: bool, line: &str, own_time: u64, own_inc: u64, variant: u64, vbase: &mut HashMap<(bool, u64, u64, u64), u128>, baseline: &mut HashMap<(bool, u64, u64), u128>, rep: &Report) -> bool {
     let sig_base = format!("C12 stm={} own_time={} own_inc={}", if white_to_move { "w" } else { "b" }, own_time, own_inc);
     let args = vec!["c12-one".to_string(), "--stm".into(), if white_to_move { "w".into() } else { "b".into() }, "--line".into(), line.to_string(), "--own-time".into(), own_time.to_string(), "--own-inc".into(), own_inc.to_string()];
     match budget(fl, line) {
@@ -61,14 +67,19 @@ pub fn check_line(fl: &mut Flounder, white_to_move: bool, line: &str, own_time: 
                 ok = false;
             }
             let key = (white_to_move, own_time, own_inc);
-            match baseline.get(&key) {
+            let prev = if variant == 0 { baseline.get(&key).copied() } else { vbase.get(&(white_to_move, own_time, own_inc, variant)).copied() };
+            match prev {
                 None => {
-                    baseline.insert(key, b);
+                    if variant == 0 {
+                        baseline.insert(key, b);
+                    } else {
+                        vbase.insert((white_to_move, own_time, own_inc, variant), b);
+                    }
                 }
-                Some(prev) if *prev != b => {
+                Some(prev) if prev != b => {
                     rep.violation(
                         format!("{} depends-on-opponent-or-order", sig_base),
-                        format!("{:?} ({} to move): budget {} ms, but another line with the same own clock ({} ms + {} ms) gave {} ms", line, if white_to_move { "white" } else { "black" }, b, own_time, own_inc, prev),
+                        format!("{:?} ({} to move): budget {} ms, but another line with the same own clock ({} ms + {} ms){} gave {} ms", line, if white_to_move { "white" } else { "black" }, b, own_time, own_inc, if variant == 0 { "" } else { " and the same token layout / session stage" }, prev),
                         args,
                         J::Null,
                     );
@@ -220,6 +231,101 @@ pub fn run(tier: &str, seed: u64, out: &str) {
             (n, distinct)
         },
     );
+    // ---- movestogo: the standard token in every slot between the clock pairs. The budget must
+    // fit the mover's clock and must not depend on the opponent's clock; lines of different
+    // layout or moves-to-go are not compared with each other (an engine may well use the value).
+    let mut munits: Vec<(bool, usize)> = Vec::new();
+    for stm in [true, false] {
+        for ti in 0..TIMES.len() {
+            munits.push((stm, ti));
+        }
+    }
+    let mres: Vec<u64> = par_map_init(
+        &munits,
+        || (make_engine(true), make_engine(false)),
+        |engines, &(stm, ti)| {
+            crate::search::verif::set_dry_run(true);
+            let fl = if stm { &mut engines.0 } else { &mut engines.1 };
+            let mut baseline: HashMap<(bool, u64, u64), u128> = HashMap::new();
+            let mut vbase: HashMap<(bool, u64, u64, u64), u128> = HashMap::new();
+            let mut n = 0u64;
+            let own_time = TIMES[ti];
+            for &own_inc in INCS.iter().chain([own_time / 2, own_time, own_time.saturating_mul(3)].iter()) {
+                for (oi, (opp_time, opp_inc)) in [(0u64, 0u64), (1000, 60_000), (3_600_000, 7)].iter().enumerate() {
+                    let vals = if stm { [own_time, *opp_time, own_inc, *opp_inc] } else { [*opp_time, own_time, *opp_inc, own_inc] };
+                    for (mi, mtg) in [0u64, 1, 2, 10, 40].iter().enumerate() {
+                        for (pi, perm) in [[0usize, 1, 2, 3], [3, 2, 1, 0], [2, 0, 3, 1]].iter().enumerate() {
+                            for slot in 0..=4usize {
+                                if rep.saturated() {
+                                    return n;
+                                }
+                                let mut line = "go".to_string();
+                                for (j, &t) in perm.iter().enumerate() {
+                                    if j == slot {
+                                        line.push_str(&format!(" movestogo {}", mtg));
+                                    }
+                                    line.push_str(&format!(" {} {}", names[t], vals[t]));
+                                }
+                                if slot == 4 {
+                                    line.push_str(&format!(" movestogo {}", mtg));
+                                }
+                                let _ = oi;
+                                let variant = 1 + (mi as u64) * 100 + (pi as u64) * 10 + slot as u64;
+                                n += 1;
+                                check_line_variant(fl, stm, &line, own_time, own_inc, variant, &mut vbase, &mut baseline, &rep);
+                            }
+                        }
+                    }
+                }
+            }
+            n
+        },
+    );
+    let mn: u64 = mres.iter().sum();
+
+    // ---- stage of the session: the same clocks on the very first go of a fresh engine, on the
+    // first go after ucinewgame, after a real (not dry-run) search, and on a second go in a row
+    let sres: Vec<u64> = par_map_init(
+        &munits,
+        || (),
+        |_, &(stm, ti)| {
+            let mut n = 0u64;
+            let own_time = TIMES[ti];
+            let setup = if stm { "position startpos" } else { "position startpos moves e2e4" };
+            for &own_inc in INCS.iter().chain([own_time / 2, own_time, own_time.saturating_mul(3)].iter()) {
+                let mut baseline: HashMap<(bool, u64, u64), u128> = HashMap::new();
+                let mut vbase: HashMap<(bool, u64, u64, u64), u128> = HashMap::new();
+                for (opp_time, opp_inc) in [(0u64, 0u64), (3_600_000, 7)] {
+                    if rep.saturated() {
+                        return n;
+                    }
+                    let vals = if stm { [own_time, opp_time, own_inc, opp_inc] } else { [opp_time, own_time, opp_inc, own_inc] };
+                    let line = format!("go wtime {} btime {} winc {} binc {}", vals[0], vals[1], vals[2], vals[3]);
+                    // stage 1: first go of a fresh engine; stage 4: the same go again
+                    let mut fl = Flounder::new();
+                    crate::search::verif::set_dry_run(true);
+                    fl.verif_handle_command(setup);
+                    check_line_variant(&mut fl, stm, &line, own_time, own_inc, 1001, &mut vbase, &mut baseline, &rep);
+                    check_line_variant(&mut fl, stm, &line, own_time, own_inc, 1004, &mut vbase, &mut baseline, &rep);
+                    // stage 2: first go after ucinewgame
+                    fl.verif_handle_command("ucinewgame");
+                    fl.verif_handle_command(setup);
+                    check_line_variant(&mut fl, stm, &line, own_time, own_inc, 1002, &mut vbase, &mut baseline, &rep);
+                    // stage 3: after a real search
+                    let mut fl = Flounder::new();
+                    fl.verif_handle_command(setup);
+                    crate::search::verif::set_dry_run(false);
+                    fl.verif_handle_command("go depth 1");
+                    crate::search::verif::set_dry_run(true);
+                    check_line_variant(&mut fl, stm, &line, own_time, own_inc, 1003, &mut vbase, &mut baseline, &rep);
+                    n += 4;
+                }
+            }
+            n
+        },
+    );
+    let sn: u64 = sres.iter().sum();
+
     // ---- extreme values: every combination of the four clock fields over the edges of the u64
     // range (anything `parse::<u64>()` accepts is a clock value the command can carry); arithmetic
     // on them must neither panic (the harness is built with overflow checks, like `cargo run`)
@@ -267,7 +373,7 @@ pub fn run(tier: &str, seed: u64, out: &str) {
 
     let dn: u64 = dres.iter().map(|r| r.0).sum();
     let ddistinct: u64 = dres.iter().map(|r| r.1).sum();
-    let n: u64 = results.iter().map(|r| r.0).sum::<u64>() + dn + en;
+    let n: u64 = results.iter().map(|r| r.0).sum::<u64>() + dn + en + mn + sn;
     let distinct: u64 = results.iter().map(|r| r.1).sum::<u64>() + ddistinct + edistinct;
     let samples: Vec<String> = results.iter().flat_map(|r| r.2.iter().cloned()).take(8).collect();
     let cov = J::obj()
@@ -276,12 +382,14 @@ pub fn run(tier: &str, seed: u64, out: &str) {
         .set("rule", "grid: own time in 19 values (0 .. 24 h, dense around the 5 s reserve) x own increment in 6 values x opponent time 19 x opponent increment 6 x all 24 orders of the four token pairs x {no prefix, 'depth 5'} x both sides to move; plus every presence subset containing the mover's time in every order. A case is distinct by (side to move, own time, own increment); all other dimensions must not change the budget.")
         .set("dense_sweep", J::obj().set("own_time_from", 0u64).set("own_time_to", dense_to).set("step", 1u64).set("go_lines", dn).set("own_clock_points", ddistinct).set("increments_per_point", "0, 1, 100, 1000, 60000, time-1, time, time+1, time/2").set("opponent_clocks_per_point", 3u64).set("token_orders_per_point", 4u64))
         .set("extreme_values", J::obj().set("values_per_field", "0, 1, 5000, 2^32-1, 2^32, 2^63-1, 2^63, 2^64-2, 2^64-1").set("go_lines", en).set("own_clock_points", edistinct).set("rule", "all 9^4 combinations of the four fields x 4 token orders x both sides to move"))
+        .set("movestogo", J::obj().set("go_lines", mn).set("rule", "movestogo N (N in 0,1,2,10,40) in each of the five slots around the four clock pairs, three pair orders, own time over the 19 grid values, own increment over the 6 grid values + time/2, time, 3*time, three opponent clocks; the budget must fit and must not change with the opponent's clock (lines with a different layout or N are not compared)"))
+        .set("session_stages", J::obj().set("go_lines", sn).set("rule", "the same go line as the very first go of a fresh engine, repeated, as the first go after ucinewgame, and after a real depth-1 search; fit and independence from the opponent's clock per stage"))
         .set("exhaustive", true)
         .set("samples", samples);
     rep.finish(
         "exploration",
         cov,
-        vec!["clock values beyond the dense sweep and between grid points behave like their neighbours (the allocation is piecewise linear: (time-5000)/25 + inc, capped)".into(), "tokens other than wtime/btime/winc/binc (movestogo, ...) are outside the property's quantifier and are not generated".into()],
+        vec!["clock values beyond the dense sweep and between grid points behave like their neighbours (the allocation is piecewise linear: (time-5000)/25 + inc, capped)".into(), "of the other go tokens only `depth N` (prefix) and `movestogo N` are generated; `movetime` together with clocks is an explicit request and outside the property".into()],
         out,
     );
 }
